@@ -7,3 +7,7 @@ import Bw.Props.C16
 #print axioms Bw.Props.C16.unknown_skipped
 #print axioms Bw.Props.C16.remap
 #print axioms Bw.Props.C16.shortest_suffix_wins
+#print axioms Bw.Props.C16.E_unsupported_rejected
+#print axioms Bw.Props.C16.E_split
+#print axioms Bw.Props.C16.E_without_equals_rejected
+#print axioms Bw.Props.C16.E_last_wins
